@@ -12,6 +12,7 @@ def run(facts, tier):
         ("iterator", lambda fa: Q.iterator_rules(fa, ("density/",)), 3, "iterator constructor couples level and height like operator++"),
         ("compaction loop", lambda fa: [o for o in Q.compaction_triggers(fa) if o["key"].startswith("density")], 2, "compaction repeats while num_retained_ >= k * levels"),
         ("couplings", lambda fa: cowrite.obligations(fa, ['density_sketch']), 2, "fields that every mutator updates together (counters, extremes, cached values) are still updated together"),
+        ("tautologies", lambda fa: generic_lints.tautologies(fa, ('density/',)), 2, "no comparison / assignment / min-max with two identical operands, no if-else with identical arms"),
         ("duplicate operands", lambda fa: generic_lints.duplicate_conjuncts(fa, ('density/',)), 2, "no logical chain tests the same operand twice (copy-paste of the wrong peer)"),
         ("structural triggers", lambda fa: triggers.obligations(fa, ['density_sketch']), 3, "the comparisons that decide when to resize / rebuild / compact / purge / promote keep their reviewed boundary (operator and constants)"),
     ):
